@@ -178,3 +178,54 @@ Proof.
   intros H1 H2. rewrite updN_app_l by exact H1. rewrite updN_app_l; [reflexivity|].
   rewrite lenN_updN by exact H1. exact H2.
 Qed.
+
+(* read_string looks at no more than [fuel] bytes *)
+Lemma rs_firstn l1 l2 fuel : firstn fuel l1 = firstn fuel l2 -> rs l1 fuel = rs l2 fuel.
+Proof.
+  revert l1 l2; induction fuel as [|f IH]; intros l1 l2 H; [reflexivity|].
+  destruct l1 as [|a l1], l2 as [|b l2]; cbn [firstn] in H; try discriminate; [reflexivity|].
+  injection H as -> H. cbn [rs]. destruct (Ascii.eqb b zero); [reflexivity|]. now rewrite (IH _ _ H).
+Qed.
+
+Lemma rs_enough l fuel : (fuel <= length l)%nat -> exists s, rs l fuel = Ok s.
+Proof.
+  revert l; induction fuel as [|f IH]; intros l H; [eexists; reflexivity|].
+  destruct l as [|c l]; [cbn in H; lia|]. cbn [rs]. destruct (Ascii.eqb c zero); [eexists; reflexivity|].
+  destruct (IH l) as [s ->]; [cbn in H; lia|]. eexists; reflexivity.
+Qed.
+
+Lemma read_string_sub bs1 bs2 off fuel :
+  off + N.of_nat fuel <= lenN bs1 -> off + N.of_nat fuel <= lenN bs2 -> (0 < fuel)%nat ->
+  subN bs1 off (N.of_nat fuel) = subN bs2 off (N.of_nat fuel) ->
+  read_string bs1 off fuel = read_string bs2 off fuel.
+Proof.
+  intros L1 L2 F S. unfold read_string. rewrite !flen_eq.
+  replace (off <? lenN bs1) with true by (symmetry; apply N.ltb_lt; lia).
+  replace (off <? lenN bs2) with true by (symmetry; apply N.ltb_lt; lia).
+  apply rs_firstn. unfold subN, takeN in S. rewrite Nat2N.id in S. exact S.
+Qed.
+
+Lemma read_string_enough bs off fuel : off + N.of_nat fuel <= lenN bs -> (0 < fuel)%nat ->
+  exists s, read_string bs off fuel = Ok s.
+Proof.
+  intros L F. unfold read_string. rewrite flen_eq.
+  replace (off <? lenN bs) with true by (symmetry; apply N.ltb_lt; lia).
+  apply rs_enough. unfold dropN. rewrite skipn_length. unfold lenN in L. lia.
+Qed.
+
+Lemma zerosN_split a b : zerosN (a + b) = zerosN a ++ zerosN b.
+Proof. unfold zerosN. rewrite N2Nat.inj_add. apply repeat_app. Qed.
+
+Lemma resizeN_grow bs n : lenN bs <= n -> resizeN bs n = bs ++ zerosN (n - lenN bs).
+Proof.
+  intros H. unfold resizeN. rewrite !flen_eq. destruct (N.leb_spec n (lenN bs)) as [G|G]; [|reflexivity].
+  assert (n = lenN bs) as -> by lia. rewrite takeN_all by lia. rewrite N.sub_diag. cbn. now rewrite app_nil_r.
+Qed.
+
+Lemma updN3_app_l a rest o1 v1 o2 v2 o3 v3 :
+  o1 + lenN v1 <= lenN a -> o2 + lenN v2 <= lenN a -> o3 + lenN v3 <= lenN a ->
+  updN (updN (updN (a ++ rest) o1 v1) o2 v2) o3 v3 = updN (updN (updN a o1 v1) o2 v2) o3 v3 ++ rest.
+Proof.
+  intros H1 H2 H3. rewrite updN2_app_l by assumption. rewrite updN_app_l; [reflexivity|].
+  rewrite !lenN_updN; rewrite ?lenN_updN; assumption.
+Qed.
